@@ -430,6 +430,7 @@ func init() {
 			c.guard("RW.TERM", r.ruleTerm)
 			c.guard("RW.KINDTAB", r.ruleKindTab)
 			c.guard("RW.CLOSE", r.ruleCloseContract)
+			c.guard("RW.CLOSE", r.ruleCloseNil)
 			c.guard("RW.CLOSE", r.ruleCloseWrap)
 			c.guard("RW.TMPL.FOR", r.ruleTmplFor)
 			c.guard("RW.BRANCHCTX", r.ruleBranchCtx)
@@ -440,6 +441,7 @@ func init() {
 			// initialiser puts a label in front of a block (`L: { i := 0; for … }`), `continue L` no longer builds
 			c.guard("RW.TMPL.HOIST", r.rulePass0)
 			c.guard("RW.ALLFILES", func() { r.ruleAllFiles(true) })
+			c.guard("RW.ALLFILES", r.ruleNoAPIPkg)
 			c.guard("OPT.ORDER", r.ruleOptOrder)
 			c.guard("RW.TMPL.CONSUMER", r.ruleTmplConsumer)
 			c.guard("RW.RANGEDISPATCH", r.ruleRangeDispatch)
